@@ -302,7 +302,12 @@ class SweepCtx(LogCtx):
             if op is None or len(hist) >= self.cfg["max_ops"]:
                 break
             hist.append(op)
-            scratch.step(op)
+            try:
+                scratch.step(op)
+            except Violation:
+                # the crash-free history itself violates: stop drawing; step() re-runs it as the
+                # reference run and reports it there (the generator never judges)
+                break
         # continuation after the crash + restart: a script that produces records from a fresh boot
         # whatever the history was (connect -> OPEN sent/received -> UPDATEs -> connection lost)
         cfg = self.cfg
@@ -324,10 +329,14 @@ class SweepCtx(LogCtx):
         cfg = self.cfg
         # reference run: count calls, find fsyncs and their un-synced tails
         ref = LogCtx(cfg, self.tier)
-        for o in hist:
-            ref.step(o)
-        total = ref.fs.calls
-        ref.finish()
+        try:
+            for o in hist:
+                ref.step(o)
+            total = ref.fs.calls
+            ref.finish()
+        except Violation as v:
+            v.detail = {"plain_ops": list(hist), "plain_cfg": dict(cfg, sweep=False, arm_absolute=True)}
+            raise
         self.nontrivial = ref.nontrivial
         self.stats["sweep_histories"] += 1
         self.stats["sweep_call_boundaries"] += total
